@@ -256,7 +256,7 @@ def Event.target : Event → Option Nat
 
 /-- one event only needs preservation by the primitives at its own target connection -/
 theorem pres_step_at (s : State) (e : Event) (hp : ∀ c, e.target = some c → PresAt cfg c P)
-    (ht : ∀ s ms, P s → P (tick s ms)) (h : P s) : P (step cfg s e) := by
+    (ht : ∀ ms, e = .advance ms → P s → P (tick s ms)) (h : P s) : P (step cfg s e) := by
   cases e with
   | connect c nonce =>
     have hp := hp c rfl
@@ -325,10 +325,10 @@ theorem pres_step_at (s : State) (e : Event) (hp : ∀ c, e.target = some c → 
       · split
         · exact pres_errorClose hp _ (hp.clearDeadline _ _ (Or.inr rfl) h)
         · exact h
-  | advance ms => exact ht _ _ h
+  | advance ms => exact ht ms rfl h
 
 theorem pres_step (hp : Pres cfg P) (s : State) (e : Event) (h : P s) : P (step cfg s e) :=
-  pres_step_at s e (fun c _ => hp.prim c) hp.tick h
+  pres_step_at s e (fun c _ => hp.prim c) (fun ms _ h => hp.tick s ms h) h
 
 /-- the induction principle: `P` holds after every event history -/
 theorem pres_run (hp : Pres cfg P) (h0 : P init) (es : List Event) : P (run cfg es) := by
